@@ -232,7 +232,7 @@ static std::string classify_death(const std::string& err, int status, std::strin
       size_t le = err.find('\n', q + 1);
       std::string fr = err.substr(q + 1, le - q - 1);
       size_t in = fr.find(" in ");
-      if (in != std::string::npos && fr.find("/repo/") != std::string::npos) {
+      if (in != std::string::npos && fr.find("/verif/") == std::string::npos && (fr.find("/src/") != std::string::npos || fr.find("/daemon/") != std::string::npos)) {
         size_t fe = fr.find(' ', in + 4);
         where = fr.substr(in + 4, fe - (in + 4));
         detail += " | " + fr.substr(in + 4);
